@@ -365,17 +365,19 @@ def replay(ctx, payload):
         res = check_sources(ctx, [case])
         print(f"grammar:\n{dec(case.split()[1])}")
         print(f"impl: {res['impl'][0][:400]}")
-        for fid, cs in res["known"].items():
-            print(f"known finding reproduced: {fid}")
+        listed = {k["id"] for k in common.load_known(ctx.pid)}
+        unlisted = [fid for fid in res["known"] if fid not in listed]
+        for fid in res["known"]:
+            print(f"{'known finding reproduced' if fid in listed else 'property violated (finding not listed in known_findings.txt)'}: {fid}")
         for c, label, why in res["new"]:
             print(f"oracle: scope {label}: {why}")
-        return 1 if (res["new"] or res["crashed"]) else 0
+        return 1 if (res["new"] or res["crashed"] or unlisted) else 0
     a = common.impl_lines("c33", [case])[0]
     b = common.model_lines([case])[0]
     q = oracle_req(case, a)
     o = common.model_lines([q])[0] if q else "ok"
     print(f"case: {case}\nimpl: {a}\nmodel: {b}\noracle: {o}")
-    if o != "ok" and attribute(case, a, o):
+    if o != "ok" and attribute(case, a, o) in {k["id"] for k in common.load_known(ctx.pid)}:
         print(f"known finding: {attribute(case, a, o)}")
         o = "ok"
     return 0 if (a == b and o == "ok") else 1
